@@ -5,6 +5,7 @@ ROOT = os.path.dirname(os.path.dirname(os.path.abspath(__file__)))
 rows = []
 # results that seed_eval.py (which runs only the seed's own property) cannot produce
 OVERRIDE = {
+    'S-C03-q': 'C04 quick and C05 quick (not C03: mergeQuery.Clone sharing its child step, the change of S-C04-n again; inside the fragment C03 claims it needs two goroutines on one expression, which C03 does not quantify over)',
     'S-C06-p': 'C05 quick (not C06: an unlocked process-wide map in the lexer that only goes wrong - a fatal "concurrent map writes" - when two goroutines compile at once; C06 does not quantify over schedules, C05 does)',
     'S-C11-o': 'C05 quick (not C11: a process-wide hasher that only goes wrong when two goroutines evaluate at once - a violation of C05, which is where it is caught; C11 does not quantify over schedules)',
     'S-C14-d': 'C04 quick and C05 quick (not C14: inside the fragment C14 claims the name functions still answer right)',
